@@ -110,6 +110,9 @@ pub struct SimSocket {
     pub last_rx_from: Rc<RefCell<Vec<Addr>>>,
     /// genuine QualityReply packets received so far, per sender (C15: "enough data exists")
     pub qreplies: Rc<RefCell<HashMap<Addr, u32>>>,
+    /// distinct nonces of the genuine SyncReply packets received so far, per sender (C12: duplicated
+    /// replies do not count as round trips)
+    pub sync_nonces: Rc<RefCell<HashMap<Addr, Vec<u32>>>>,
 }
 
 impl NonBlockingSocket<Addr> for SimSocket {
@@ -132,6 +135,15 @@ impl NonBlockingSocket<Addr> for SimSocket {
             }
             if !injected && matches!(ggrs::verif::msg::view(m).body, ggrs::verif::msg::Body::QualityReply { .. }) {
                 *self.qreplies.borrow_mut().entry(*a).or_insert(0) += 1;
+            }
+            if !injected {
+                if let ggrs::verif::msg::Body::SyncReply(r) = ggrs::verif::msg::view(m).body {
+                    let mut sn = self.sync_nonces.borrow_mut();
+                    let v = sn.entry(*a).or_default();
+                    if !v.contains(&r) {
+                        v.push(r);
+                    }
+                }
             }
         }
         v.into_iter().map(|(a, m, _)| (a, m)).collect()
